@@ -115,15 +115,17 @@ Definition recv_half (credit : bool) (e : ep) : ep * list ppkt :=
   match e_rs e with RClosed => (e, []) | _ => discard_recv credit e end.
 
 (* close() *)
+Definition close_half (e : ep) : ep * list ppkt :=
+  if ss_closing (e_ss e) then (e, []) else flush (w_ss SClosePending e).
+Definition abort_half (e : ep) : ep * list ppkt :=
+  if ss_closing (e_ss e) then (e, []) else close_send e.
 Definition l_close (credit : bool) (e : ep) : ep * list ppkt :=
-  let e := set_closing e in
-  let '(e1, o1) := if ss_closing (e_ss e) then (e, []) else flush (w_ss SClosePending e) in
-  let '(e2, o2) := recv_half credit e1 in (e2, o1 ++ o2).
+  let '(e1, o1) := close_half e in
+  let '(e2, o2) := recv_half credit e1 in (set_closing e2, o1 ++ o2).
 (* abort() *)
 Definition l_abort (credit : bool) (e : ep) : ep * list ppkt :=
-  let e := set_closing e in
-  let '(e1, o1) := if ss_closing (e_ss e) then (e, []) else close_send e in
-  let '(e2, o2) := recv_half credit e1 in (e2, o1 ++ o2).
+  let '(e1, o1) := abort_half e in
+  let '(e2, o2) := recv_half credit e1 in (set_closing e2, o1 ++ o2).
 
 Definition l_write (e : ep) (n : nat) : ep * list ppkt :=
   match e_ss e with
@@ -169,15 +171,17 @@ Definition p_adjust (e : ep) (n : nat) : res :=
        ok e' o
   else (e, [], true).
 Definition w_rs v e := mkEp (e_ss e) v (e_schan e) (e_sbuf e) (e_swin e) (e_rwin e) (e_rbuf e) (e_init e) (e_paused e) (e_keep e) (e_closing e) (e_pend e) (e_cleanups e) (e_lost e) (e_sess e) (e_reg e).
+Definition eof_in (e : ep) : ep * list ppkt := flush_recv (w_rs REofPending e).
+Definition close_in (e : ep) : ep * list ppkt := flush_recv (w_rs RClosePending e).
 Definition p_eof (e : ep) : res :=
   match e_rs e with
-  | ROpen => let '(e', o) := flush_recv (w_rs REofPending e) in ok e' o
+  | ROpen => let '(e', o) := eof_in e in ok e' o
   | _ => (e, [], true)
   end.
 Definition p_close (e : ep) : res :=
   if rs_openish (e_rs e)
   then let '(e1, o1) := close_send e in
-       let '(e2, o2) := flush_recv (w_rs RClosePending e1) in ok e2 (o1 ++ o2)
+       let '(e2, o2) := close_in e1 in ok e2 (o1 ++ o2)
   else (e, [], true).
 
 Definition p_recv (credit : bool) (e : ep) (p : ppkt) : res :=
